@@ -354,6 +354,78 @@ theorem gradient_total_entry (fam : Family) (g n j : Nat) (hj : j < n) :
   rw [List.getD_eq_getElem?_getD, List.getElem?_map, List.getElem?_range hj]
   simp
 
+/-! ### the gradient of the total as a vector: the formula `Holds.C06` checks -/
+
+theorem getD_of_lt (l : Vec) (j : Nat) (h : j < l.length) : l.getD j 0 = l[j] := by
+  rw [List.getD_eq_getElem?_getD, List.getElem?_eq_getElem h]; rfl
+
+theorem vadd_length (a b : Vec) (h : a.length = b.length) : (Jinns.Holds.vadd a b).length = a.length := by
+  simp [Jinns.Holds.vadd, h]
+
+theorem vadd_getD (a b : Vec) (h : a.length = b.length) (j : Nat) (hj : j < a.length) :
+    (Jinns.Holds.vadd a b).getD j 0 = a.getD j 0 + b.getD j 0 := by
+  have hb : j < b.length := h ▸ hj
+  have hz : j < (Jinns.Holds.vadd a b).length := by rw [vadd_length a b h]; exact hj
+  rw [getD_of_lt _ _ hz, getD_of_lt _ _ hj, getD_of_lt _ _ hb]
+  simp [Jinns.Holds.vadd]
+
+theorem foldl_vadd (rows : List Vec) (acc : Vec) (n : Nat) (hacc : acc.length = n)
+    (hrows : ∀ r ∈ rows, r.length = n) :
+    (rows.foldl Jinns.Holds.vadd acc).length = n ∧
+    ∀ j, j < n → (rows.foldl Jinns.Holds.vadd acc).getD j 0
+      = acc.getD j 0 + sumQ (rows.map (fun r => r.getD j 0)) := by
+  induction rows generalizing acc with
+  | nil => exact ⟨hacc, fun j _ => by simp [sumQ]⟩
+  | cons r rs ih =>
+    have hr : r.length = n := hrows r (by simp)
+    have hlen : (Jinns.Holds.vadd acc r).length = n := by rw [vadd_length acc r (by omega)]; exact hacc
+    have := ih (Jinns.Holds.vadd acc r) hlen (fun x hx => hrows x (by simp [hx]))
+    refine ⟨this.1, fun j hj => ?_⟩
+    simp only [List.foldl_cons, List.map_cons, sumQ]
+    rw [this.2 j hj, vadd_getD acc r (by omega) j (by omega)]
+    ring
+
+theorem gradient_length (f : Tangent → Rat) (g n : Nat) : (gradient f g n).length = n := by
+  simp [gradient]
+
+/-- **C06 (vector form, the formula checked on the implementation)**: when every term's row for
+    group `g` has the group's dimension `n`, the gradient of the total loss with respect to `g` is
+    the vector sum, over exactly the selecting terms, of their rows (`Holds.expectedGrad`). -/
+theorem gradient_total_eq_vector_sum (fam : Family) (g n : Nat)
+    (hshape : ∀ mt ∈ fam, (mt.2.diff.getD g []).length = n) :
+    gradient (totalJvp (evalTerms fam)) g n =
+      (selecting fam g).foldl (fun acc t => Jinns.Holds.vadd acc (t.diff.getD g []))
+        (Jinns.Holds.vzero n) := by
+  have hfold : (selecting fam g).foldl (fun acc t => Jinns.Holds.vadd acc (t.diff.getD g []))
+      (Jinns.Holds.vzero n)
+      = ((selecting fam g).map (fun t => t.diff.getD g [])).foldl Jinns.Holds.vadd
+          (Jinns.Holds.vzero n) := by
+    rw [List.foldl_map]
+  have hrows : ∀ r ∈ (selecting fam g).map (fun t => t.diff.getD g []), r.length = n := by
+    intro r hr
+    obtain ⟨t, ht, rfl⟩ := List.mem_map.1 hr
+    unfold selecting at ht
+    obtain ⟨mt, hmt, rfl⟩ := List.mem_map.1 ht
+    exact hshape mt (List.mem_filter.1 hmt).1
+  have hz : (Jinns.Holds.vzero n).length = n := by simp [Jinns.Holds.vzero]
+  have hf := foldl_vadd _ (Jinns.Holds.vzero n) n hz hrows
+  rw [hfold]
+  apply List.ext_getElem
+  · rw [gradient_length, hf.1]
+  · intro j h1 h2
+    have hj : j < n := by rw [gradient_length] at h1; exact h1
+    rw [← getD_of_lt _ _ h1, ← getD_of_lt _ _ h2, gradient_total_entry _ _ _ _ hj,
+      hf.2 j hj, List.map_map]
+    have hzero : (Jinns.Holds.vzero n).getD j 0 = 0 := by
+      simp [Jinns.Holds.vzero, List.getD_eq_getElem?_getD, hj]
+    rw [hzero]
+    have : (selecting fam g).map (fun t => (gradient t.jvp g n).getD j 0)
+        = (selecting fam g).map ((fun r : Vec => r.getD j 0) ∘ fun t => t.diff.getD g []) := by
+      apply List.map_congr_left
+      intro t _
+      exact gradient_entry t g n j hj
+    rw [this]; ring
+
 /-! ### `stop_gradient`: idempotent, commuting, and what `_set_derivatives` is made of -/
 
 theorem zeroVec_idem (r : Vec) : zeroVec (zeroVec r) = zeroVec r := by simp [zeroVec]
@@ -687,6 +759,15 @@ example : SupportedOn 1 [[0, 0], [5], []] := by
   | 1 => omega
   | 2 => simp at hx
   | (k + 3) => simp at hx
+example : ∀ mt ∈ exFam, (mt.2.diff.getD 0 []).length = 2 := by decide
+example : ∀ mt ∈ exFam, (mt.2.diff.getD 1 []).length = 1 := by decide
+example : ([true, false] : Mask).getD 1 false = false ∧ ([true, false] : Mask).getD 0 false = true := by decide
+example : ∀ mt ∈ ([([true, false], ⟨1, [[1], [2]]⟩), ([false, false], ⟨3, [[4], [5]]⟩)] : Family),
+    mt.1.getD 1 false = false := by decide
+example : ∀ mt ∈ exFam.take 1 ++ exFam.drop 2, mt.1.getD 0 false = true := by decide
+example : ([true, false] : Mask).length = ([[1, 2], [3]] : List Vec).length := rfl
+example : "nn_param" ≠ "both" ∧ "nn_param" ≠ "eq_params" ∧ "nn_param" ≠ "nn_params" := by decide
+example : resolve 2 (.str "eq_params") = some [false, true, true] := by decide
 example : maskOfString 2 "nn_params" = some [true, false, false] := by decide
 example : maskOfString 2 "eq_params" = some [false, true, true] := by decide
 example : maskOfString 2 "both" = some [true, true, true] := by decide
